@@ -30,7 +30,8 @@ STAGE_NOTE = ("Trusted: Coq kernel (no axioms; MD5 is a Section variable, collis
               "(OCaml Digest = MD5 passed as the hash argument). Modelled by hand: stage/local.go and companion.go as a sequential state machine with an object "
               "heap (cache, wait lists, channels hold object ids) and an explicit settle function for the validator/finalize goroutines. Not modelled: real "
               "goroutine interleavings (explored by the concurrent suite), narrowing log-search windows and the 10 s retry timer of isFileReady (the model "
-              "looks at the whole log), cleanCache ageing, exporter/dispatcher, power-loss durability.")
+              "looks at the whole log; C03d-type changes to that timer are met by the e2e and stage liveness oracles only), exporter/dispatcher, power-loss "
+              "durability. cleanCache ageing IS modelled (ops 'clean cache' and 'd seconds pass').")
 STAGE_SUITE = dict(name="stage", pkg="./stage/", test="TestVerifStage", min_lines=200, timeout_quick=900, confirm=True)
 
 E2E_RULE = ("e2e: the real client.Broker with the real store.Local, cache.JSON, queue.Tagged, payload.Bin and sent-log against a real stage.Stage + receive log "
@@ -197,7 +198,7 @@ PROPS = {
     ),
     "C05": dict(
         coq="Properties/C05.v",
-        suites=[dict(STAGE_SUITE, oracles=["logged_twice", "delivered_version_not_recognised", "superseded_version_not_recognised"], diffs=["finals", "log", "received", "status", "stage-files"]),
+        suites=[dict(STAGE_SUITE, oracles=["logged_twice", "logged_twice_after_record_aged_out", "logged_twice_single_version", "delivered_version_not_recognised", "superseded_version_not_recognised"], diffs=["finals", "log", "received", "status", "stage-files"]),
                 race_suite(["logged_twice"])],
         rule=STAGE_RULE + RACE_RULE,
         level_text=("Proof (step level): a finalisation appends at most one record and changes the final directory only together with it. The history-level "
